@@ -22,7 +22,6 @@ impl VClone for Expr { #[verifier::external_body] fn vclone(&self) -> (r: Self) 
 pub uninterp spec fn expr_reads(e: Expr) -> Set<Seq<char>>;
 #[verifier::external_body] pub fn vars_used_in_expr(e: &Expr) -> (r: HashSet<String>) ensures r@ == expr_reads(*e) { unimplemented!() }
 #[verifier::external_body] pub fn add_uses_expr(live: &mut HashSet<String>, e: &Expr) ensures final(live)@ == old(live)@.union(expr_reads(*e)) { unimplemented!() }
-#[verifier::external_body] pub fn assigned_vars_in_block(b: &Block) -> (r: HashSet<String>) { unimplemented!() }
 #[verifier::external_body] pub fn free_vars_in_block(b: &Block) -> (r: HashSet<String>) { unimplemented!() }
 #[verifier::external_body] pub fn underscore() -> (r: String) ensures r@ == "_"@ { unimplemented!() }          // "_".to_string()
 #[verifier::external_body] pub fn str_eq(a: &str, b: &str) -> (r: bool) ensures r == (a@ == b@) { unimplemented!() }
@@ -32,133 +31,148 @@ pub uninterp spec fn dce_e(e: Expr) -> Expr;                                    
 #[verifier::external_body] pub fn dce_expr(expr: Expr) -> (r: Expr) ensures r == dce_e(expr) { unimplemented!() }
 
 pub open spec fn none() -> Set<Seq<char>> { Set::<Seq<char>>::empty() }
+pub open spec fn one(n: Seq<char>) -> Set<Seq<char>> { Set::<Seq<char>>::empty().insert(n) }
 pub open spec fn oexpr_reads(o: Option<Expr>) -> Set<Seq<char>> { match o { Some(e) => expr_reads(e), None => none() } }
-// the variables a statement reads, at any depth (a declaration or an assignment does not read the variable it names)
-pub open spec fn stmt_reads(s: Stmt) -> Set<Seq<char>>
+// two sets of names per statement, at any depth: w == 0: the variables it READS (a declaration or an assignment does not read the variable it names);
+// w == 1: the variables it ASSIGNS with `=` (what dce::assigned_vars_in_block collects)
+pub open spec fn rd(w: int, x: Set<Seq<char>>) -> Set<Seq<char>> { if w == 0 { x } else { none() } }
+pub open spec fn stmt_names(w: int, s: Stmt) -> Set<Seq<char>>
     decreases s,
 {
     match s {
-        Stmt::Expr(e) => expr_reads(e),
-        Stmt::Go { call } => expr_reads(call),
-        Stmt::VarDecl { name: _, ty: _, value } => oexpr_reads(value),
-        Stmt::Assignment { name: _, value } => expr_reads(value),
-        Stmt::IndexAssign { array, index, value } => expr_reads(array).union(expr_reads(index)).union(expr_reads(value)),
-        Stmt::PointerAssign { pointer, value } => expr_reads(pointer).union(expr_reads(value)),
-        Stmt::FieldAssign { target, value } => expr_reads(target).union(expr_reads(value)),
-        Stmt::Return { expr } => oexpr_reads(expr),
+        Stmt::Expr(e) => rd(w, expr_reads(e)),
+        Stmt::Go { call } => rd(w, expr_reads(call)),
+        Stmt::VarDecl { name: _, ty: _, value } => rd(w, oexpr_reads(value)),
+        Stmt::Assignment { name, value } => if w == 0 { expr_reads(value) } else { one(name@) },
+        Stmt::IndexAssign { array, index, value } => rd(w, expr_reads(array).union(expr_reads(index)).union(expr_reads(value))),
+        Stmt::PointerAssign { pointer, value } => rd(w, expr_reads(pointer).union(expr_reads(value))),
+        Stmt::FieldAssign { target, value } => rd(w, expr_reads(target).union(expr_reads(value))),
+        Stmt::Return { expr } => rd(w, oexpr_reads(expr)),
         Stmt::Break => none(),
-        Stmt::Loop { body } => seq_reads(body.stmts@, body.stmts@.len() as int),
-        Stmt::If { cond, then, else_ } => expr_reads(cond).union(seq_reads(then.stmts@, then.stmts@.len() as int))
-            .union(match else_ { Some(b) => seq_reads(b.stmts@, b.stmts@.len() as int), None => none() }),
-        Stmt::SwitchExpr { expr, cases, default } => expr_reads(expr).union(cases_reads(cases@, cases@.len() as int))
-            .union(match default { Some(b) => seq_reads(b.stmts@, b.stmts@.len() as int), None => none() }),
-        Stmt::SwitchType { bind: _, expr, cases, default } => expr_reads(expr).union(tcases_reads(cases@, cases@.len() as int))
-            .union(match default { Some(b) => seq_reads(b.stmts@, b.stmts@.len() as int), None => none() }),
+        Stmt::Loop { body } => seq_names(w, body.stmts@, body.stmts@.len() as int),
+        Stmt::If { cond, then, else_ } => rd(w, expr_reads(cond)).union(seq_names(w, then.stmts@, then.stmts@.len() as int))
+            .union(match else_ { Some(b) => seq_names(w, b.stmts@, b.stmts@.len() as int), None => none() }),
+        Stmt::SwitchExpr { expr, cases, default } => rd(w, expr_reads(expr)).union(cases_names(w, cases@, cases@.len() as int))
+            .union(match default { Some(b) => seq_names(w, b.stmts@, b.stmts@.len() as int), None => none() }),
+        Stmt::SwitchType { bind: _, expr, cases, default } => rd(w, expr_reads(expr)).union(tcases_names(w, cases@, cases@.len() as int))
+            .union(match default { Some(b) => seq_names(w, b.stmts@, b.stmts@.len() as int), None => none() }),
     }
 }
-pub open spec fn seq_reads(l: Seq<Stmt>, k: int) -> Set<Seq<char>>
+pub open spec fn seq_names(w: int, l: Seq<Stmt>, k: int) -> Set<Seq<char>>
     decreases l, k,
 {
-    if k <= 0 || k > l.len() { none() } else { seq_reads(l, k - 1).union(stmt_reads(l[k - 1])) }
+    if k <= 0 || k > l.len() { none() } else { seq_names(w, l, k - 1).union(stmt_names(w, l[k - 1])) }
 }
-pub open spec fn cases_reads(l: Seq<(Expr, Block)>, k: int) -> Set<Seq<char>>
+pub open spec fn cases_names(w: int, l: Seq<(Expr, Block)>, k: int) -> Set<Seq<char>>
     decreases l, k,
 {
-    if k <= 0 || k > l.len() { none() } else { cases_reads(l, k - 1).union(expr_reads(l[k - 1].0)).union(seq_reads(l[k - 1].1.stmts@, l[k - 1].1.stmts@.len() as int)) }
+    if k <= 0 || k > l.len() { none() } else { cases_names(w, l, k - 1).union(rd(w, expr_reads(l[k - 1].0))).union(seq_names(w, l[k - 1].1.stmts@, l[k - 1].1.stmts@.len() as int)) }
 }
-pub open spec fn tcases_reads(l: Seq<(GoType, Block)>, k: int) -> Set<Seq<char>>
+pub open spec fn tcases_names(w: int, l: Seq<(GoType, Block)>, k: int) -> Set<Seq<char>>
     decreases l, k,
 {
-    if k <= 0 || k > l.len() { none() } else { tcases_reads(l, k - 1).union(seq_reads(l[k - 1].1.stmts@, l[k - 1].1.stmts@.len() as int)) }
+    if k <= 0 || k > l.len() { none() } else { tcases_names(w, l, k - 1).union(seq_names(w, l[k - 1].1.stmts@, l[k - 1].1.stmts@.len() as int)) }
 }
-pub open spec fn all_reads(l: Seq<Stmt>) -> Set<Seq<char>> { seq_reads(l, l.len() as int) }
-pub open spec fn all_cases(l: Seq<(Expr, Block)>) -> Set<Seq<char>> { cases_reads(l, l.len() as int) }
-pub open spec fn all_tcases(l: Seq<(GoType, Block)>) -> Set<Seq<char>> { tcases_reads(l, l.len() as int) }
+pub open spec fn all_names(w: int, l: Seq<Stmt>) -> Set<Seq<char>> { seq_names(w, l, l.len() as int) }
+pub open spec fn all_cnames(w: int, l: Seq<(Expr, Block)>) -> Set<Seq<char>> { cases_names(w, l, l.len() as int) }
+pub open spec fn all_tnames(w: int, l: Seq<(GoType, Block)>) -> Set<Seq<char>> { tcases_names(w, l, l.len() as int) }
+pub open spec fn stmt_reads(s: Stmt) -> Set<Seq<char>> { stmt_names(0, s) }
+pub open spec fn all_reads(l: Seq<Stmt>) -> Set<Seq<char>> { all_names(0, l) }
+pub open spec fn all_cases(l: Seq<(Expr, Block)>) -> Set<Seq<char>> { all_cnames(0, l) }
+pub open spec fn all_tcases(l: Seq<(GoType, Block)>) -> Set<Seq<char>> { all_tnames(0, l) }
+pub open spec fn all_assigned(l: Seq<Stmt>) -> Set<Seq<char>> { all_names(1, l) }
 
-pub proof fn lemma_seq_prefix(a: Seq<Stmt>, b: Seq<Stmt>, k: int)
+pub proof fn lemma_seq_prefix(w: int, a: Seq<Stmt>, b: Seq<Stmt>, k: int)
     requires 0 <= k <= a.len(), k <= b.len(), forall|j: int| 0 <= j < k ==> a[j] == b[j],
-    ensures seq_reads(a, k) == seq_reads(b, k),
+    ensures seq_names(w, a, k) == seq_names(w, b, k),
     decreases k,
 {
-    if k > 0 { lemma_seq_prefix(a, b, k - 1); }
+    if k > 0 { lemma_seq_prefix(w, a, b, k - 1); }
 }
-pub proof fn lemma_cases_prefix(a: Seq<(Expr, Block)>, b: Seq<(Expr, Block)>, k: int)
+pub proof fn lemma_cases_prefix(w: int, a: Seq<(Expr, Block)>, b: Seq<(Expr, Block)>, k: int)
     requires 0 <= k <= a.len(), k <= b.len(), forall|j: int| 0 <= j < k ==> a[j] == b[j],
-    ensures cases_reads(a, k) == cases_reads(b, k),
+    ensures cases_names(w, a, k) == cases_names(w, b, k),
     decreases k,
 {
-    if k > 0 { lemma_cases_prefix(a, b, k - 1); }
+    if k > 0 { lemma_cases_prefix(w, a, b, k - 1); }
 }
-pub proof fn lemma_tcases_prefix(a: Seq<(GoType, Block)>, b: Seq<(GoType, Block)>, k: int)
+pub proof fn lemma_tcases_prefix(w: int, a: Seq<(GoType, Block)>, b: Seq<(GoType, Block)>, k: int)
     requires 0 <= k <= a.len(), k <= b.len(), forall|j: int| 0 <= j < k ==> a[j] == b[j],
-    ensures tcases_reads(a, k) == tcases_reads(b, k),
+    ensures tcases_names(w, a, k) == tcases_names(w, b, k),
     decreases k,
 {
-    if k > 0 { lemma_tcases_prefix(a, b, k - 1); }
+    if k > 0 { lemma_tcases_prefix(w, a, b, k - 1); }
 }
-// appending a statement adds exactly its reads
-pub broadcast proof fn lemma_reads_push(o: Seq<Stmt>, s: Stmt)
-    ensures #[trigger] all_reads(o.push(s)) == all_reads(o).union(stmt_reads(s)),
+// appending a statement adds exactly its names
+pub broadcast proof fn lemma_reads_push(w: int, o: Seq<Stmt>, s: Stmt)
+    ensures #[trigger] all_names(w, o.push(s)) == all_names(w, o).union(stmt_names(w, s)),
 {
-    lemma_seq_prefix(o.push(s), o, o.len() as int);
+    lemma_seq_prefix(w, o.push(s), o, o.len() as int);
 }
-pub broadcast proof fn lemma_cases_push(o: Seq<(Expr, Block)>, c: (Expr, Block))
-    ensures #[trigger] all_cases(o.push(c)) == all_cases(o).union(expr_reads(c.0)).union(all_reads(c.1.stmts@)),
+pub broadcast proof fn lemma_cases_push(w: int, o: Seq<(Expr, Block)>, c: (Expr, Block))
+    ensures #[trigger] all_cnames(w, o.push(c)) == all_cnames(w, o).union(rd(w, expr_reads(c.0))).union(all_names(w, c.1.stmts@)),
 {
-    lemma_cases_prefix(o.push(c), o, o.len() as int);
+    lemma_cases_prefix(w, o.push(c), o, o.len() as int);
 }
-pub broadcast proof fn lemma_tcases_push(o: Seq<(GoType, Block)>, c: (GoType, Block))
-    ensures #[trigger] all_tcases(o.push(c)) == all_tcases(o).union(all_reads(c.1.stmts@)),
+pub broadcast proof fn lemma_tcases_push(w: int, o: Seq<(GoType, Block)>, c: (GoType, Block))
+    ensures #[trigger] all_tnames(w, o.push(c)) == all_tnames(w, o).union(all_names(w, c.1.stmts@)),
 {
-    lemma_tcases_prefix(o.push(c), o, o.len() as int);
+    lemma_tcases_prefix(w, o.push(c), o, o.len() as int);
 }
-pub proof fn lemma_reads_concat(a: Seq<Stmt>, b: Seq<Stmt>)
-    ensures all_reads(a + b) == all_reads(a).union(all_reads(b)),
+pub proof fn lemma_reads_concat(w: int, a: Seq<Stmt>, b: Seq<Stmt>)
+    ensures all_names(w, a + b) == all_names(w, a).union(all_names(w, b)),
     decreases b.len(),
 {
     if b.len() == 0 {
         assert(a + b =~= a);
-        assert(all_reads(a).union(all_reads(b)) =~= all_reads(a));
+        assert(all_names(w, a).union(all_names(w, b)) =~= all_names(w, a));
     } else {
         let b1 = b.drop_last();
         assert(a + b =~= (a + b1).push(b.last()));
         assert(b =~= b1.push(b.last()));
-        lemma_reads_concat(a, b1);
-        lemma_reads_push(a + b1, b.last());
-        lemma_reads_push(b1, b.last());
-        assert(all_reads(a + b) =~= all_reads(a).union(all_reads(b)));
+        lemma_reads_concat(w, a, b1);
+        lemma_reads_push(w, a + b1, b.last());
+        lemma_reads_push(w, b1, b.last());
+        assert(all_names(w, a + b) =~= all_names(w, a).union(all_names(w, b)));
     }
 }
-// the order of the statements plays no part in what they read
-pub proof fn lemma_reads_reverse(l: Seq<Stmt>)
-    ensures all_reads(l.reverse()) == all_reads(l),
+// the order of the statements plays no part in the names they read / assign
+pub proof fn lemma_reads_reverse(w: int, l: Seq<Stmt>)
+    ensures all_names(w, l.reverse()) == all_names(w, l),
     decreases l.len(),
 {
     if l.len() > 0 {
         let p = l.drop_last();
-        let one = Seq::<Stmt>::empty().push(l.last());
+        let one_ = Seq::<Stmt>::empty().push(l.last());
         assert(l =~= p.push(l.last()));
-        assert(l.reverse() =~= one + p.reverse());
-        lemma_reads_reverse(p);
-        lemma_reads_concat(one, p.reverse());
-        lemma_reads_push(Seq::<Stmt>::empty(), l.last());
-        lemma_reads_push(p, l.last());
-        assert(all_reads(l.reverse()) =~= all_reads(l));
+        assert(l.reverse() =~= one_ + p.reverse());
+        lemma_reads_reverse(w, p);
+        lemma_reads_concat(w, one_, p.reverse());
+        lemma_reads_push(w, Seq::<Stmt>::empty(), l.last());
+        lemma_reads_push(w, p, l.last());
+        assert(all_names(w, l.reverse()) =~= all_names(w, l));
     } else {
         assert(l.reverse() =~= l);
     }
 }
-// C02: in `o` — the kept statements in SCANNING order, the block's last statement first — every declaration that carries an initialiser is read by a
+// C02: in `o` — the kept statements in SCANNING order, the block's last statement first — every declaration (other than of the blank `_`) is read by a
 // statement that follows it in the block (at any depth), or is live on exit of the block
 pub open spec fn decls_used(o: Seq<Stmt>, lo: Set<Seq<char>>) -> bool {
-    forall|k: int| 0 <= k < o.len() ==> ((#[trigger] o[k]) matches Stmt::VarDecl { name, ty: _, value: Some(_) } ==> all_reads(o.take(k)).union(lo).contains(name@))
+    forall|k: int| 0 <= k < o.len() ==> ((#[trigger] o[k]) matches Stmt::VarDecl { name, ty: _, value: _ } ==> (name@ == "_"@ || all_reads(o.take(k)).union(lo).contains(name@)))
 }
 pub broadcast proof fn lemma_decls_push(o: Seq<Stmt>, s: Stmt, lo: Set<Seq<char>>)
-    requires decls_used(o, lo), s matches Stmt::VarDecl { name, ty: _, value: Some(_) } ==> all_reads(o).union(lo).contains(name@),
+    requires decls_used(o, lo), s matches Stmt::VarDecl { name, ty: _, value: _ } ==> (name@ == "_"@ || all_reads(o).union(lo).contains(name@)),
     ensures #[trigger] decls_used(o.push(s), lo),
 {
     let n = o.push(s);
-    assert forall|k: int| 0 <= k < n.len() implies ((#[trigger] n[k]) matches Stmt::VarDecl { name, ty: _, value: Some(_) } ==> all_reads(n.take(k)).union(lo).contains(name@)) by {
+    assert forall|k: int| 0 <= k < n.len() implies ((#[trigger] n[k]) matches Stmt::VarDecl { name, ty: _, value: _ } ==> (name@ == "_"@ || all_reads(n.take(k)).union(lo).contains(name@))) by {
         if k < o.len() { assert(n.take(k) =~= o.take(k)); assert(n[k] == o[k]); } else { assert(n.take(k) =~= o); }
     }
+}
+// every variable the statements assign (other than the blank `_`) is read by one of them or live on exit: an assignment is kept only for a live variable
+pub open spec fn assigned_are_read(l: Seq<Stmt>, lo: Set<Seq<char>>) -> bool {
+    forall|n: Seq<char>| #[trigger] all_names(1, l).contains(n) && n != "_"@ ==> all_names(0, l).union(lo).contains(n)
+}
+pub open spec fn names_are_read(ns: Set<Seq<char>>, l: Seq<Stmt>, lo: Set<Seq<char>>) -> bool {
+    forall|n: Seq<char>| #[trigger] ns.contains(n) && n != "_"@ ==> all_reads(l).union(lo).contains(n)
 }
